@@ -30,8 +30,17 @@ import (
 type rec = map[string]interface{}
 
 type val struct {
-	V string `json:"v"`
-	K string `json:"k,omitempty"` // index key (absent = not indexed)
+	V string   `json:"v"`
+	K string   `json:"k,omitempty"` // index key (absent = not indexed)
+	T []string `json:"t,omitempty"` // when present, T[0] is the current value (set by "touch" operations)
+}
+
+// value is what a stored val stands for.
+func (v val) value() string {
+	if len(v.T) > 0 {
+		return v.T[0]
+	}
+	return v.V
 }
 
 // keyOf is the index key a value is stored with: every third workload value has none, so that stored
@@ -81,7 +90,9 @@ func workload(seed int64) []op {
 			ops = append(ops, op{Op: "flush"})
 			continue
 		}
-		ops = append(ops, op{Op: []string{"create", "create", "update", "delete"}[rng.Intn(4)], ID: ids[rng.Intn(len(ids))], V: fmt.Sprintf("v%d", i)})
+		// touch: an update made by reading the value inside the write transaction, changing it in place and
+		// passing it back to Update
+		ops = append(ops, op{Op: []string{"create", "create", "update", "delete", "touch", "touch"}[rng.Intn(6)], ID: ids[rng.Intn(len(ids))], V: fmt.Sprintf("v%d", i)})
 	}
 	return ops
 }
@@ -161,9 +172,20 @@ func ChildMain(dir string, seed int64, killSpec, prefix string) {
 			err = doInit(st)
 		case "flush":
 			qs.Flush()
-		case "create", "update", "delete":
+		case "create", "update", "delete", "touch":
 			t := st.Write(o.ID)
 			switch o.Op {
+			case "touch":
+				var x interface{}
+				if x, err = t.Value(); err == nil {
+					v := x.(val)
+					if len(v.T) == 0 {
+						v.T = []string{o.V}
+					} else {
+						v.T[0] = o.V
+					}
+					err = t.Update(v)
+				}
 			case "create":
 				err = t.Create(val{V: o.V, K: keyOf(o.V)})
 			case "update":
@@ -360,7 +382,11 @@ func oneRun(rs runSpec) (rec, error) {
 		if o.Op == "init" {
 			sd = o.Seeds
 		}
-		return rec{"op": o.Op, "id": o.ID, "v": o.V, "seeds": sd}
+		name := o.Op
+		if name == "touch" {
+			name = "update" // to the reference a touch is an update to the new value
+		}
+		return rec{"op": name, "id": o.ID, "v": o.V, "seeds": sd}
 	}
 	acked := []rec{}
 	inflight := []rec{}
@@ -380,12 +406,14 @@ func oneRun(rs runSpec) (rec, error) {
 		return nil, fmt.Errorf("cannot reopen the database after the crash: %v", err)
 	}
 	defer db.Close()
+	storedKey := map[string]string{}
 	read := func() [][]string {
 		obs := [][]string{}
 		for _, id := range ids {
 			v, err := st.Get(id)
 			if err == nil {
-				obs = append(obs, []string{id, v.(val).V})
+				obs = append(obs, []string{id, v.(val).value()})
+				storedKey[id] = v.(val).K
 			}
 		}
 		return obs
@@ -408,7 +436,7 @@ func oneRun(rs runSpec) (rec, error) {
 	type ent struct{ k, id string }
 	var ents []ent
 	for _, o := range obs2 {
-		if k := keyOf(o[1]); k != "" {
+		if k := storedKey[o[0]]; k != "" {
 			ents = append(ents, ent{k, o[0]})
 		}
 	}
